@@ -207,6 +207,12 @@ func showValues(vs []NDValue) string {
 			parts = append(parts, fmt.Sprintf("%s=%d", v.Name, v.Int))
 		case "bool":
 			parts = append(parts, fmt.Sprintf("%s=%v", v.Name, v.Bool))
+		case "uf":
+			b := make([]byte, len(v.Bytes))
+			for i, x := range v.Bytes {
+				b[i] = byte(x)
+			}
+			parts = append(parts, fmt.Sprintf("%s(%q)=%v", v.Name, b, v.Bool))
 		}
 	}
 	return strings.Join(parts, " ")
